@@ -1278,6 +1278,14 @@ func execAnotherModule(vm *r.VM, libInfo r.LibNameInfo) (*r.Module, error) {
 			return nil, WrapRuntimeError(vm, err)
 		}
 
+		// #4. the module's symbols have been popped when its body ended: declare its
+		// methods & types again (at root level), so that an imported method could still
+		// use other methods & types of its own module when it is called later
+		for name, val := range module.GetAllExportValues() {
+			// (a name the module has imported itself keeps its imported value)
+			_ = vm.DeclareConstElement(r.NewIDName(name), val)
+		}
+
 		vm.PopCallFrame()
 		return module, nil
 	}
